@@ -44,6 +44,7 @@ def run(ctx) -> None:
     from ..util import local_single_defs
     lsd = local_single_defs(f)
     same_loops, overlap_loops, relation = [], [], None
+    rq = f.node.args.args[1].arg     # the request parameter (by position)
     for l in loops:
         lv = norm(l.ast.target)
         inside = {id(x) for x in ast.walk(l.ast)}
@@ -53,14 +54,14 @@ def run(ctx) -> None:
                 continue
             facts = facts_at(g, n, lsd)
             pos = {a for a, pol in facts if pol}
-            if f"{lv}.name == cmd_request.name" in pos or f"cmd_request.name == {lv}.name" in pos:
+            if f"{lv}.name == {rq}.name" in pos or f"{rq}.name == {lv}.name" in pos:
                 same_loops.append(l)
                 continue
             # direct form: both names in the same declared overlap list
             ins = [a for a in pos if a.startswith(f"{lv}.name in ")]
             for a in ins:
                 coll = a[len(f"{lv}.name in "):]
-                if f"cmd_request.name in {coll}" in pos:
+                if f"{rq}.name in {coll}" in pos:
                     # coll must be the loop variable of a loop over the declared lists
                     outer = [x for x in ast.walk(l.ast) if isinstance(x, ast.For) and norm(x.target) == coll
                              and "overlapping_command_names_lists" in norm(x.iter)]
@@ -69,7 +70,7 @@ def run(ctx) -> None:
                 elif coll in lsd or True:
                     # relation form: <coll> = self.uod.<lookup>(cmd_request.name)  /  self.uod.<attr>[cmd_request.name] / .get(...)
                     d = lsd.get(coll)
-                    if d is not None and "cmd_request.name" in norm(d) and norm(d).startswith("self.uod."):
+                    if d is not None and f"{rq}.name" in norm(d) and norm(d).startswith("self.uod."):
                         overlap_loops.append(l)
                         relation = d
     if not same_loops:
